@@ -1,4 +1,5 @@
 import math
+import os
 from abc import ABC, abstractmethod
 from dataclasses import dataclass
 from functools import partial
@@ -11,6 +12,10 @@ from jax import jit, lax, random, vmap
 
 from ad_afqmc import linalg_utils, sr, wavefunctions
 from ad_afqmc.wavefunctions import wave_function
+
+# verification hooks (add-only): active only with ANKIT76_AD_AFQMC_VERIF=1 *and* when the caller
+# pre-seeded the corresponding prop_data keys; otherwise propagate() is unchanged
+_VERIF = os.environ.get("ANKIT76_AD_AFQMC_VERIF") == "1"
 
 
 @dataclass
@@ -118,6 +123,12 @@ class propagator(ABC):
         Returns:
             prop_data: dictionary containing the updated propagation data
         """
+        if _VERIF and "_verif_incoh" in prop_data:
+            _ov = trial.calc_overlap(prop_data["walkers"], wave_data)
+            prop_data["_verif_incoh"] = jnp.maximum(
+                prop_data["_verif_incoh"],
+                jnp.max(jnp.abs(prop_data["overlaps"] - _ov) / jnp.abs(prop_data["overlaps"])),
+            )
         force_bias = trial.calc_force_bias(prop_data["walkers"], ham_data, wave_data)
         field_shifts = -jnp.sqrt(self.dt) * (1.0j * force_bias - ham_data["mf_shifts"])
         shifted_fields = fields - field_shifts
@@ -145,6 +156,9 @@ class propagator(ABC):
             * overlaps_new
             / prop_data["overlaps"]
         )
+        if _VERIF and "_verif_imp_fun" in prop_data:
+            prop_data["_verif_imp_fun"] = imp_fun
+            prop_data["_verif_theta"] = theta
         imp_fun_phaseless = jnp.abs(imp_fun) * jnp.cos(theta)
         imp_fun_phaseless = jnp.array(
             jnp.where(jnp.isnan(imp_fun_phaseless), 0.0, imp_fun_phaseless)
